@@ -18,6 +18,54 @@ def gen(rng, tier):
                                length=(8, 50 if tier == "quick" else 150), queries=(3, 8), raw=hexes[i] or None)
 
 
+# ---- the third ingest path: MRT update files. C16 owns the model of the unit (Mrt/*) and its engine `c16`; C01 drives
+# that engine with ITS histories: per-peer streams of UPDATEs over few prefixes, a prefix often withdrawn and announced
+# by one UPDATE (RFC 4271 4.3: ends announced), every prefix queried. No dump files, no state changes: those are C16's.
+MRT_PEERS = [0, 2, 3, 5]     # pairwise different address and AS (harness/src/engines/c16.rs POOL)
+
+
+def gen_mrt(rng, tier):
+    n = 250 if tier == "quick" else 4000
+    for _ in range(n):
+        ops = []
+        for _f in range(rng.range(1, 3)):
+            ops.append("F " + rng.choice("pgb"))
+            for _m in range(rng.range(1, 7)):
+                p = rng.choice(MRT_PEERS)
+                v = rng.weighted([(4, 60), (14, 15), (2, 15), (12, 10)])
+                if v % 10 == 2 and p == 5:
+                    v += 2                                    # a four-octet AS does not fit an AS2 record
+                af = rng.weighted([(0, 75), (1, 25)])
+                ps = sorted({rng.below(4) for _ in range(rng.weighted([(0, 15), (1, 45), (2, 30), (3, 10)]))})
+                ws = sorted({rng.below(4) for _ in range(rng.weighted([(0, 35), (1, 40), (2, 25)]))})
+                if ps and rng.chance(35):
+                    ws = sorted(set(ws) | {rng.choice(ps)})   # the overlap
+                ops.append("M %d %d %d %d %s %d %s" % (v, p, af, rng.below(10), ",".join(map(str, ps)) or "-", af, ",".join(map(str, ws)) or "-"))
+            if rng.chance(40):
+                ops.append("Q %d %d" % (rng.below(2), rng.below(4)))
+        ops += ["Q %d %d" % (af, x) for af in (0, 1) for x in range(4)]
+        yield ";".join(ops)
+
+
+def nontrivial_mrt(case, out):
+    return any(t.startswith("q:p") for t in out.split())
+
+
+def classify_mrt(case, out):
+    ks = {"mrt-update-file"}
+    for o in case.split(";"):
+        t = o.split()
+        if t and t[0] == "M" and t[5] != "-" and t[7] != "-" and set(t[5].split(",")) & set(t[7].split(",")):
+            ks.add("prefix-withdrawn-and-announced-in-one-update")
+    if any(t.startswith("q:") and "=W" in t for t in out.split()):
+        ks.add("query-shows-withdrawn")
+    return sorted(ks)
+
+
+def corpus_mrt():
+    return ["F p;M 4 0 0 3 1,2 0 -;M 4 0 0 4 1 0 1,2;M 4 2 1 5 1 1 -;Q 0 1;Q 0 2;Q 1 1"]
+
+
 def nontrivial(case, out):
     return any(t.startswith("q:") and ("," in t or "=W" in t) for t in out.split())
 
@@ -31,7 +79,8 @@ def corpus():
     ]
 
 
-ENGINES = [{"name": "pipe", "gen": gen, "corpus": corpus, "nontrivial": nontrivial, "classify": pipegen.classify, "shards": 12}]
+ENGINES = [{"name": "pipe", "gen": gen, "corpus": corpus, "nontrivial": nontrivial, "classify": pipegen.classify, "shards": 12},
+           {"name": "c16", "gen": gen_mrt, "corpus": corpus_mrt, "nontrivial": nontrivial_mrt, "classify": classify_mrt, "shards": 8, "timeout": 1500}]
 known_signature = known_signature_for(set())
 LEVEL_TEXT = ("Theorem over all update histories of the RIB model: what a query shows for (family, prefix, source) is the last event of that source for "
               "that prefix (exact characterisation including the sticky session-wide withdrawal), one entry per source, overlap ends announced, an "
